@@ -276,9 +276,9 @@ def close_with_candidates(cx, A, B, tol, label, A_unrelaxed=None):
                 cx.opts[k] = v
     A0 = A if A_unrelaxed is None else A_unrelaxed
     flatA = [SNum.coerce(e) for e in np.asarray(A0, dtype=object).ravel()]
-    flatB = [complex(e) for e in np.asarray(B).ravel()]
+    flatB = [SNum.coerce(e) for e in np.asarray(B, dtype=object).ravel()]
     for env in _candidate_envs(cx):
-        worst = max(abs(a.eval(env) - b) for a, b in zip(flatA, flatB))
+        worst = max(abs(a.eval(env) - b.eval(env)) for a, b in zip(flatA, flatB))
         if worst > 10 * tol:
             model = {n: env[n] for n, v in cx.vars.items() if v['kind'] == 'real' and not n.startswith('_')}
             model.update({n: v.get('value', 0) for n, v in cx.vars.items() if v['kind'] == 'choice'})
@@ -296,8 +296,8 @@ def close_with_candidates(cx, A, B, tol, label, A_unrelaxed=None):
 # (cos(kd) - 1, sin(kd)) lies in that box, so validity of the relaxed VC implies validity of the original
 # one (sound weakening), and the relaxed VC is decided by z3 in linear arithmetic.
 # witness search for genuine violations: the "far" regimes exclude the pi/4 lattice points, so pi/6 and pi/12 lattices
-# come first; 8 s per query bounds the time spent on a failing path (only reached when the linear stage fails)
-SEARCH = {'lattices': (6, 12, 4), 'vc_timeout_ms': 8000}
+# come first; 4 s per query and 900 s per obligation bound the time spent on a failing path (only reached when the linear stage fails)
+SEARCH = {'lattices': (6, 12), 'vc_timeout_ms': 4000, 'max_seconds': 900}
 EPS = 1e-12  # regimes overlap by EPS: comparisons of the code use float-rounded constants (1e-16 slivers)
 
 
@@ -633,12 +633,6 @@ def obligations(tier):
 
     core = ((-Q, Q), (-Q, Q), (-Q, Q))
     chain_specs = [('core', core, xr, 1 if tier == 'quick' else 3) for xr in range(4)]
-    if tier != 'quick':
-        for bi in range(3):
-            bx = [(-Q, Q)] * 3
-            bx[bi] = (-CB, CB)
-            nreg = 6 if bi == 0 else 4
-            chain_specs += [(f'axis{bi}', tuple(bx), xr, 1) for xr in range(nreg)]
     for mod, partial in (('cz', False), ('cz', True), ('ms', True)):
         for tag, boxes, xr, max_near in chain_specs:
             nm = f'chain.{mod}' + ('' if mod == 'ms' else ('.partial' if partial else '.full')) + f'.{tag}.xr{xr}'
@@ -678,7 +672,7 @@ def main(tier, seed=0, replay=None, only=None, procs=None):
         'tolerance': {'kak_canonicalize_vector (exact identities)': 1e-7, 'synthesis products (up to global phase)': KTOL, 'why': 'strengths within atol of 0 are dropped and within atol of +-pi/4 rounded to a full CZ: up to 12*atol deviation is built into the routines'},
         'regimes': 'every strength handed to a synthesis routine: far from {0, +-pi/4} (chain: from every multiple of pi/4 in the box) by >= atol+1e-12, or a + d with |d| <= atol+2e-12 (finite selector); exp(i k d) relaxed to fresh box variables (sound weakening) before the VC',
         'local_factor_menu': '2 concrete (b0,b1,a0,a1,g) tuples for _kak_decomposition_to_operations (single-qubit synthesis runs on concrete matrices); chain: the local factors produced by kak_canonicalize_vector',
-        'chain': ('[-pi/4,pi/4]^3, at most one strength within atol of a multiple of pi/4' if quick else '[-pi/4,pi/4]^3 all regime combinations; one coefficient in [-pi/2,pi/2] with at most one near strength'),
+        'chain': ('[-pi/4,pi/4]^3, at most one strength within atol of a multiple of pi/4' if quick else '[-pi/4,pi/4]^3, all regime combinations'),
         'finite_selectors': 'frame gate of _parity_interaction (3), regimes, local-factor menu, allow_partial_czs',
         'outside': [
             'kak_decomposition / kak_vector / _canonicalize_kak_vector (vectorised) / so4_to_magic_su2s / kron_factor_4x4_to_2x2s / bidiagonalize_* / unitary_eig on symbolic matrices / num_cnots_required / extract_right_diag (LAPACK, argsort, boolean masks)',
